@@ -157,7 +157,7 @@ impl Prop for C03 {
          random alphanumeric words up to 12; each with no wrapping, and strided words with every lead/trail string of length <= 2 over the 27 punctuation characters \
          (757 x 757 pairs sampled; full lead x {empty} and {empty} x trail) and random wrappings up to 3; expected = avro(lead)+avro(word)+avro(trail) from the okkhor parser called directly on the generator's own parts. \
          clause 'candidate' (suggestions on, 4 settings): all 8930 strings of length <= 2 over the 94 typeable characters, the 20-symbol splitter alphabet up to length 3 (quick) / 4 (thorough), random strings up to 10; \
-         each text ended by finish / commit of the pre-selected / commit of the last candidate in rotation; the single-string output of a suggestions-off context must be among the candidates after un-curling. distinct_nontrivial = distinct typed texts judged."
+         each text ended by finish / commit of the pre-selected / commit of the last candidate in rotation; a third of the digits and of . + - * / (fixed by the text) are typed through the number-pad keys in both clauses; the single-string output of a suggestions-off context must be among the candidates after un-curling. distinct_nontrivial = distinct typed texts judged."
             .into()
     }
     fn assumptions(&self) -> Vec<String> {
